@@ -31,6 +31,7 @@ RULE = ('One case = one host (real LinuxAppEnvironment / RuleMgr / EndpointsMgr 
         'live, and the starts of the case registered rule files, endpoint specs and set entries; distinct by (manifests, names, '
         'operations, foreign entries).')
 ASSUMPTIONS = [
+    '1 container in 8 has the linux runtime\'s standard services (sshd service, ssh infra endpoint) stripped after load, so that manifests without any infra endpoint are driven too',
     'treadmill.subproc.invoke/check_call/check_output replaced by a kernel-state model: ipset (named typed sets, -exist '
     'semantics, restore), conntrack -D (return code 0 or 1 at random), iptables/ip logged only; subproc.resolve returns fixed paths',
     'treadmill.newnet.create_newnet replaced by a recorder (would unshare the network namespace)',
@@ -156,6 +157,10 @@ def _run_case(ctx, idx, rng, tier):
                 vip_pool=pool, firewall_plugin=fw_plugin)
     flags = dict(peer=False, kinds=set())
     containers = [Container(i, names[i], specs[i]) for i in range(len(names))]
+    for c in containers:
+        # 1 container in 8 runs without the linux runtime's standard services (no sshd service, no ssh infra
+        # endpoint): _unshare_network/_cleanup_network must be symmetric for manifests without an infra endpoint too
+        c.strip_linux_services = rng.random() < 0.125
     saved_random = random.getstate()
     random.seed(py_seed)
     host = Host(ext_ip, gen.RESOLVER, pool, conntrack_rc=lambda: rc_rng.choice([0, 1]), firewall_plugin=fw_plugin)
